@@ -42,11 +42,13 @@ BOUND = X.BOUND_TEXT + (
     'run id): quick: the 11 curated DAGs x {1 target/1 worker: all event sequences of length <= 4 (3 for the '
     '4-node graphs), 2 targets/2 workers: <= 3} plus 3 seeded histories of length 8..11 each; thorough: the curated DAGs x '
     '{1,2 targets} x {1,2 workers} to length 7 cut at 6000 transitions plus 10 seeded histories each'
-    '; reload (schedule.build again in the same process, farm quiet): the 11 curated DAGs x {1 target/1 worker, '
-    '2 targets/2 workers} x every algorithm X: scripted histories run X, tick, reply o1, reload, run X, tick, '
-    'reply o2, drain (o1, o2 in success/success with new values/failure), full cascades around one and two '
-    'reloads, a reload before anything ran, and all algorithms requested at once around a reload (seed '
-    'independent, both tiers, run first); at most one reload, with low probability, in every seeded history'
+    '; reload (schedule.build again in the same process, farm quiet): the 11 curated DAGs x every algorithm X, '
+    'scripted histories: 1 target/1 worker: run X, tick, reply o1, reload, run X, tick, reply o2, drain with '
+    '(o1, o2) in (success, success), (new values, new values), (failure, new values), (new values, failure); '
+    'run X and the full cascade three times with a reload in between; 2 targets/2 workers: run X for all targets '
+    'and the full cascade before and after a reload; both: a reload before anything ran, all algorithms requested '
+    'at once around a reload (253 histories, seed independent, both tiers, run first); at most one reload, with '
+    'low probability, in every seeded history'
 )
 CLAUSES = [
     'C03.one-message',
